@@ -31,6 +31,7 @@ import struct
 import types
 
 from xdis.codetype import Code2, Code3
+from xdis.cross_types import UnicodeForPython3
 from xdis.version_info import PYTHON3, PYTHON_VERSION_TRIPLE, version_tuple_to_str
 
 try:
@@ -96,6 +97,36 @@ class _Marshaller:
     def __init__(self, writefunc, python_version=None):
         self._write = writefunc
         self.python_version = python_version
+        # True while we are inside a Python 2 code object and running Python 3
+        self.py2_target = False
+
+    def dump_py2_const(self, x):
+        """Write `x`, a constant of a Python 2 code object as Python 3 sees it, with
+        the type it has in Python 2. Return False if `x` needs no special handling."""
+        if isinstance(x, UnicodeForPython3):
+            # Python 2 unicode; .value is its UTF-8 encoding
+            s = x.value
+            if isinstance(s, str):
+                s = s.encode("utf-8", "surrogatepass")
+            self._write(TYPE_UNICODE)
+            self.w_long(len(s))
+            self._write(s)
+            return True
+        if isinstance(x, str):
+            # Python 2 str which the unmarshaller could decode as UTF-8
+            self.dump_string(x.encode("utf-8"))
+            return True
+        if type(x) is int:
+            # Python 2 int (long is LongTypeForPython3)
+            y = x >> 31
+            if y and y != -1:
+                self._write(TYPE_INT64)
+                self.w_long64(x)
+            else:
+                self._write(TYPE_INT)
+                self.w_long(x)
+            return True
+        return False
 
     def dump(self, x):
         if (
@@ -106,6 +137,8 @@ class _Marshaller:
                 "code type passed for version %s but we are running version %s"
                 % (version_tuple_to_str(), self.python_version)
             )
+        if self.py2_target and self.dump_py2_const(x):
+            return
         try:
             self.dispatch[type(x)](self, x)
         except KeyError:
@@ -313,36 +346,32 @@ class _Marshaller:
         # but Python 3 marshaling, by default, will dump strings as
         # unicode. Force marsaling this type as string.
 
-        self._write(TYPE_CODE)
-        self.w_long(x.co_argcount)
-        self.w_long(x.co_nlocals)
-        self.w_long(x.co_stacksize)
-        self.w_long(x.co_flags)
-        self.dump_string(x.co_code)
-
-        # If running in a Python3 interpreter, some constants will get
-        # converted from string to unicode. For now, let's see if
-        # that's okay.
-        self.dump(x.co_consts)
-
-        # The tuple "names" in Python2 must have string entries
-        self._write(TYPE_TUPLE)
-        self.w_long(len(x.co_names))
-        for name in x.co_names:
-            self.dump_string(name)
-
-        # The tuple "varnames" in Python2 also must have string entries
-        self._write(TYPE_TUPLE)
-        self.w_long(len(x.co_varnames))
-        for name in x.co_varnames:
-            self.dump_string(name)
-
-        self.dump(x.co_freevars)
-        self.dump(x.co_cellvars)
-        self.dump_string(x.co_filename)
-        self.dump_string(x.co_name)
-        self.w_long(x.co_firstlineno)
-        self.dump_string(x.co_lnotab)
+        # If running in a Python3 interpreter, Python 2 str constants and
+        # names have become (unicode) str; they have to be written as
+        # Python 2 str again. See dump_py2_const().
+        saved_py2_target = self.py2_target
+        self.py2_target = PYTHON3
+        try:
+            self._write(TYPE_CODE)
+            self.w_long(x.co_argcount)
+            self.w_long(x.co_nlocals)
+            self.w_long(x.co_stacksize)
+            self.w_long(x.co_flags)
+            self.dump_string(x.co_code)
+            self.dump(x.co_consts)
+            self.dump(x.co_names)
+            self.dump(x.co_varnames)
+            self.dump(x.co_freevars)
+            self.dump(x.co_cellvars)
+            self.dump(x.co_filename)
+            self.dump(x.co_name)
+            self.w_long(x.co_firstlineno)
+            lnotab = x.co_lnotab
+            if PYTHON3 and isinstance(lnotab, str):
+                lnotab = lnotab.encode("latin-1")
+            self.dump_string(lnotab)
+        finally:
+            self.py2_target = saved_py2_target
         return
 
     dispatch[Code2] = dump_code2
